@@ -7,9 +7,15 @@ use crate::item::*;
 /// Inputs for the decoding operations.
 pub fn cfg_inputs(thorough: bool) -> Vec<Vec<u8>> {
     let mut v: Vec<Vec<u8>> = Vec::new();
-    let maxlen = if thorough { 3 } else { 2 };
-    for n in 0..=maxlen {
+    for n in 0..=2 {
         for_each_bytes(n, 0..256, |b| v.push(b.to_vec()));
+    }
+    if thorough {
+        // all 3-byte strings behind one initial byte of every head class (the six transcripts of ~85 operations are
+        // held in memory: all 2^24 strings would need > 100 GB)
+        for first in [0x18u8, 0x19, 0x38, 0x39, 0x58, 0x5f, 0x78, 0x7f, 0x81, 0x82, 0x98, 0x9f, 0xa1, 0xb8, 0xbf, 0xc1, 0xd8, 0xf8, 0xf9, 0xfa] {
+            for_each_bytes(3, first as usize..first as usize + 1, |b| v.push(b.to_vec()));
+        }
     }
     v.extend(hostile_heads());
     let nodes = if thorough { 5 } else { 4 };
